@@ -378,17 +378,23 @@ func liftedSites(c *Check, fn *ssa.Function, prim func(ssa.CallInstruction) bool
 		if h == nil || len(h.Blocks) == 0 || h == fn {
 			continue
 		}
-		inner, innerLeaks := liftedSites(c, h, prim, depth+1)
+		// inside the helper its parameters stand for the arguments of this call (so a predicate about the
+		// caller's file / target recognises it there)
+		var inner []ssa.CallInstruction
+		var innerLeaks []string
+		fwd := true
+		engine.WithCtx(append(engine.CurrentCtx(), call), func() {
+			inner, innerLeaks = liftedSites(c, h, prim, depth+1)
+			for _, p := range inner {
+				if !forwardsError(h, p) {
+					fwd = false
+					innerLeaks = append(innerLeaks, c.P.FuncName(h)+" can return a nil error after "+engine.CalleeName(p)+" failed ("+c.P.InstrPos(p)+")")
+				}
+			}
+		})
 		leaks = append(leaks, innerLeaks...)
 		if len(inner) == 0 {
 			continue
-		}
-		fwd := true
-		for _, p := range inner {
-			if !forwardsError(h, p) {
-				fwd = false
-				leaks = append(leaks, c.P.FuncName(h)+" can return a nil error after "+engine.CalleeName(p)+" failed ("+c.P.InstrPos(p)+")")
-			}
 		}
 		if fwd {
 			sites = append(sites, s)
